@@ -478,6 +478,16 @@ StepFindings(T, e, post) ==
                         \cup (IF e.op \in {"reads", "add", "new", "collapse"}
                                  /\ (~KVSeqSame(mid.cs, post[j]))
                               THEN {<<"sideeffect", j, e.op, 0>>} ELSE {})
+                        \* C02: what was closed before an append is still there afterwards, in the same
+                        \* positions behind whatever was trimmed -- nothing is slipped in between closed candles
+                        \cup (IF e.op = "append"
+                              THEN LET dr == e.m[j].drop
+                                       kk == Len(st[j]) - dr - (IF T.mg[j].tf # 0 THEN 1 ELSE 0)
+                                       bad == {p \in 1..MaxI(kk, 0) :
+                                                 p > Len(post[j]) \/ post[j][p].ts # st[j][p + dr].ts}
+                                   IN IF bad = {} THEN {}
+                                      ELSE {<<"repaint_order", j, "", CHOOSE p \in bad : \A q \in bad : p <= q>>}
+                              ELSE {})
                         \cup StateFindings(T, ra, j, post[j]))
                   \cup (IF j \in MgsAfter(T, e)        \* (a manager that is created later does not exist yet)
                         THEN DefFindings(T, j, IF e.op \in {"new", "append"} THEN e.b ELSE kc, post[j]) ELSE {})
